@@ -1,1440 +1,81 @@
 //go:build verif
 
-// C01 — Elastic-quota usage and request accounting is exact over any event history.
-// See /verif/DESIGN.md §1 C01. In-package harness (injected with -overlay) that drives
-// GroupQuotaManager with the same calls the plugin's event handlers make (routing by the pod's
-// quota label with fall-back to the default quota, the periodic default->quota migrate cycle,
-// Reserve/Unreserve) and compares GetQuotaSummaries(true) after EVERY operation with
-//
-//	(a) a from-scratch recomputation written here from the model's surviving quotas and pods, and
-//	(b) a fresh manager fed the final objects (end of run and after every ResetQuota).
-//
-// The reference rule, stated independently of the code under test (dimension-wise, cpu in milli, memory in bytes):
-//
-//	self(g)         = Σ requests of the pods that are members of g
-//	childRequest(g) = self(g) + Σ_{c child of g} limited(c)
-//	request(g)      = childRequest(g)                      if g lends (allowLentResource)
-//	                = max(childRequest(g), min(g))         otherwise
-//	limited(g)      = min(request(g), max(g))              (what is passed to the parent)
-//	used(g)         = Σ requests of the ASSIGNED member pods of g + Σ_{c} used(c)
-//	nonPreemptible{Request,Used}(g): the same sums restricted to pods labelled preemptible=false, never limited
+// C01 unit "core": GroupQuotaManager driven directly. The driver below restates, call for call, what the plugin's
+// event handlers do (pod_handler.go, quota_handler.go, plugin.go Reserve/Unreserve, plugin_helper.go
+// migrateDefaultQuotaGroupsPod); the routing (label -> quota, fall-back to the default quota) comes from the model.
+// Model, oracle and generator: c01_model_core_test.go.
 package core
 
 import (
-	"encoding/json"
-	"fmt"
 	"io"
-	"sort"
-	"strings"
 	"testing"
-	"time"
 
 	corev1 "k8s.io/api/core/v1"
-	"k8s.io/apimachinery/pkg/api/resource"
-	metav1 "k8s.io/apimachinery/pkg/apis/meta/v1"
-	"k8s.io/apimachinery/pkg/types"
-	utilfeature "k8s.io/apiserver/pkg/util/feature"
 	"k8s.io/klog/v2"
 	"pgregory.net/rapid"
 
 	"github.com/koordinator-sh/koordinator/apis/extension"
 	"github.com/koordinator-sh/koordinator/apis/thirdparty/scheduler-plugins/pkg/apis/scheduling/v1alpha1"
-	"github.com/koordinator-sh/koordinator/pkg/features"
 	"github.com/koordinator-sh/koordinator/pkg/verifkit/vk"
 )
 
-// ---------------------------------------------------------------- amounts
+type c01Manager = GroupQuotaManager
+type c01Summary = QuotaInfoSummary
 
-type c01Vec [2]int64 // [0] cpu in milli, [1] memory in bytes
-
-var c01DimName = [2]string{"cpu", "memory"}
-
-func (a c01Vec) add(b c01Vec) c01Vec { return c01Vec{a[0] + b[0], a[1] + b[1]} }
-
-func c01VecMin(a, b c01Vec) c01Vec {
-	for d := 0; d < 2; d++ {
-		if b[d] < a[d] {
-			a[d] = b[d]
-		}
-	}
-	return a
-}
-
-func (a c01Vec) String() string { return fmt.Sprintf("{cpu:%dm mem:%d}", a[0], a[1]) }
-
-func c01Quantity(d int, v int64) resource.Quantity {
-	if d == 0 {
-		return *resource.NewMilliQuantity(v, resource.DecimalSI)
-	}
-	return *resource.NewQuantity(v, resource.BinarySI)
-}
-
-func c01RL(v c01Vec, has [2]bool) corev1.ResourceList {
-	rl := corev1.ResourceList{}
-	if has[0] {
-		rl[corev1.ResourceCPU] = c01Quantity(0, v[0])
-	}
-	if has[1] {
-		rl[corev1.ResourceMemory] = c01Quantity(1, v[1])
-	}
-	return rl
-}
-
-var c01Both = [2]bool{true, true}
-
-const c01ExtraResource = corev1.ResourceName("example.com/widget")
-
-// c01FromRL reads a reported list: a missing key and a zero are the same figure. Any other
-// dimension with a non-zero amount is returned in foreign (all quotas of a run have exactly {cpu, memory}).
-func c01FromRL(rl corev1.ResourceList) (v c01Vec, foreign string) {
-	for _, name := range c01SortedResourceNames(rl) {
-		q := rl[name]
-		switch name {
-		case corev1.ResourceCPU:
-			v[0] = q.MilliValue()
-		case corev1.ResourceMemory:
-			v[1] = q.Value()
-		default:
-			if !q.IsZero() {
-				foreign += fmt.Sprintf("%s=%s ", name, q.String())
-			}
-		}
-	}
-	return
-}
-
-func c01SortedResourceNames(rl corev1.ResourceList) []corev1.ResourceName {
-	out := make([]corev1.ResourceName, 0, len(rl))
-	for k := range rl {
-		out = append(out, k)
-	}
-	sort.Slice(out, func(i, j int) bool { return out[i] < out[j] })
-	return out
-}
-
-var c01Ladder = [2][]int64{
-	{0, 1, 100, 250, 499, 500, 501, 1000, 1500, 2000, 3000, 4000, 8000, 64000},
-	{0, 1, 1 << 10, 1 << 20, 1<<20 + 1, 1 << 30, 3 << 30, 1 << 36},
-}
-var c01Span = [2]int64{4000, 4 << 20}
-
-func c01GenAmount(t *rapid.T, d int, label string) int64 {
-	if rapid.Bool().Draw(t, label+"Ladder") {
-		return rapid.SampledFrom(c01Ladder[d]).Draw(t, label)
-	}
-	return rapid.Int64Range(0, c01Span[d]).Draw(t, label)
-}
-
-// ---------------------------------------------------------------- model objects
-
-type c01Res struct {
-	Has   [2]bool
-	Val   c01Vec
-	Extra int64 // amount of a dimension no quota declares (must be masked out); 0 = absent
-}
-
-func (r c01Res) list() corev1.ResourceList {
-	rl := c01RL(r.Val, r.Has)
-	if r.Extra > 0 {
-		rl[c01ExtraResource] = *resource.NewQuantity(r.Extra, resource.DecimalSI)
-	}
-	return rl
-}
-
-func (r c01Res) String() string {
-	var parts []string
-	for d := 0; d < 2; d++ {
-		if r.Has[d] {
-			parts = append(parts, fmt.Sprintf("%s=%d", c01DimName[d], r.Val[d]))
-		}
-	}
-	if r.Extra > 0 {
-		parts = append(parts, fmt.Sprintf("widget=%d", r.Extra))
-	}
-	return "[" + strings.Join(parts, " ") + "]"
-}
-
-func c01GenRes(t *rapid.T, label string) c01Res {
-	var r c01Res
-	for d := 0; d < 2; d++ {
-		r.Has[d] = rapid.IntRange(0, 5).Draw(t, label+c01DimName[d]+"Has") > 0
-		if r.Has[d] {
-			r.Val[d] = c01GenAmount(t, d, label+c01DimName[d])
-		}
-	}
-	if rapid.IntRange(0, 5).Draw(t, label+"Extra") == 0 {
-		r.Extra = rapid.Int64Range(1, 8).Draw(t, label+"ExtraN")
-	}
-	return r
-}
-
-type c01PodSpec struct {
-	Name        string
-	Label       string // value of the quota-name label, "" = no label
-	NonPreempt  bool   // label preemptible=false (immutable per the pod webhook)
-	Ctrs        []c01Res
-	Init        *c01Res
-	Node        string
-	Terminating bool
-	RV          int
-}
-
-func (s c01PodSpec) clone() c01PodSpec {
-	c := s
-	c.Ctrs = append([]c01Res(nil), s.Ctrs...)
-	if s.Init != nil {
-		i := *s.Init
-		c.Init = &i
-	}
-	return c
-}
-
-// request is the pod's effective request, stated independently of core.PodRequests:
-// per dimension max(Σ containers, init container); no overhead is generated.
-func (s c01PodSpec) request() c01Vec {
-	var sum c01Vec
-	for _, c := range s.Ctrs {
-		sum = sum.add(c.Val)
-	}
-	if s.Init != nil {
-		for d := 0; d < 2; d++ {
-			if s.Init.Val[d] > sum[d] {
-				sum[d] = s.Init.Val[d]
-			}
-		}
-	}
-	return sum
-}
-
-func (s c01PodSpec) String() string {
-	out := fmt.Sprintf("%s{label=%q", s.Name, s.Label)
-	for _, c := range s.Ctrs {
-		out += " ctr" + c.String()
-	}
-	if s.Init != nil {
-		out += " init" + s.Init.String()
-	}
-	if s.NonPreempt {
-		out += " nonpreemptible"
-	}
-	if s.Node != "" {
-		out += " node=" + s.Node
-	}
-	if s.Terminating {
-		out += " terminating"
-	}
-	return out + "}"
-}
-
-var c01DeletionTime = metav1.NewTime(time.Unix(1000000000, 0)) // 2001: far from any wall-clock boundary
-
-func (s c01PodSpec) build() *corev1.Pod {
-	p := &corev1.Pod{ObjectMeta: metav1.ObjectMeta{Namespace: "ns", Name: s.Name, UID: types.UID("uid-" + s.Name),
-		Labels: map[string]string{}, ResourceVersion: fmt.Sprint(s.RV)}}
-	if s.Label != "" {
-		p.Labels[extension.LabelQuotaName] = s.Label
-	}
-	if s.NonPreempt {
-		p.Labels[extension.LabelPreemptible] = "false"
-	}
-	for i, c := range s.Ctrs {
-		p.Spec.Containers = append(p.Spec.Containers, corev1.Container{Name: fmt.Sprintf("c%d", i),
-			Resources: corev1.ResourceRequirements{Requests: c.list()}})
-	}
-	if s.Init != nil {
-		p.Spec.InitContainers = append(p.Spec.InitContainers, corev1.Container{Name: "init",
-			Resources: corev1.ResourceRequirements{Requests: s.Init.list()}})
-	}
-	p.Spec.NodeName = s.Node
-	p.Status.Phase = corev1.PodPending
-	if s.Node != "" {
-		p.Status.Phase = corev1.PodRunning
-	}
-	if s.Terminating {
-		ts := c01DeletionTime
-		p.DeletionTimestamp = &ts
-	}
-	return p
-}
-
-type c01Pod struct {
-	Spec     c01PodSpec  // latest object delivered by the (simulated) informer
-	Obj      *corev1.Pod // built from Spec
-	In       string      // quota the pod is a member of ("" = none)
-	Assigned bool
-}
-
-type c01Quota struct {
-	Name, Parent string
-	IsParent     bool
-	AllowLent    bool
-	Max          c01Vec
-	Min          c01Vec
-	MinHas       [2]bool
-	Weight       c01Vec // zero vector = no shared-weight annotation (defaults to max)
-}
-
-func (q *c01Quota) minEff() c01Vec {
-	var m c01Vec
-	for d := 0; d < 2; d++ {
-		if q.MinHas[d] {
-			m[d] = q.Min[d]
-		}
-	}
-	return m
-}
-
-func (q *c01Quota) String() string {
-	return fmt.Sprintf("%s{parent=%s isParent=%v lent=%v max=%v min=%v/%v}", q.Name, q.Parent, q.IsParent, q.AllowLent, q.Max, q.Min, q.MinHas)
-}
-
-func (q *c01Quota) build() *v1alpha1.ElasticQuota {
-	eq := &v1alpha1.ElasticQuota{
-		ObjectMeta: metav1.ObjectMeta{Name: q.Name, Namespace: "ns", Labels: map[string]string{}, Annotations: map[string]string{}},
-		Spec:       v1alpha1.ElasticQuotaSpec{Max: c01RL(q.Max, c01Both), Min: c01RL(q.Min, q.MinHas)},
-	}
-	eq.Labels[extension.LabelQuotaParent] = q.Parent
-	eq.Labels[extension.LabelQuotaIsParent] = fmt.Sprint(q.IsParent)
-	eq.Labels[extension.LabelAllowLentResource] = fmt.Sprint(q.AllowLent)
-	if q.Weight != (c01Vec{}) {
-		b, _ := json.Marshal(c01RL(q.Weight, c01Both))
-		eq.Annotations[extension.AnnotationSharedWeight] = string(b)
-	}
-	return eq
-}
-
-// ---------------------------------------------------------------- expectation (oracle a)
-
-type c01Exp struct {
-	self, selfNP, selfUsed, selfNPUsed c01Vec
-	child, req, lim                    c01Vec
-	np, used, npUsed                   c01Vec
-	pods                               map[string]bool // member key -> assigned
-}
-
-func c01PodKey(name string) string { return "ns/" + name }
-
-// c01Expect recomputes every figure from scratch from the surviving quotas and pods.
-func c01Expect(quotas map[string]*c01Quota, pods map[string]*c01Pod) map[string]*c01Exp {
-	children := map[string][]string{}
-	for _, name := range vk.SortedKeys(quotas) {
-		children[quotas[name].Parent] = append(children[quotas[name].Parent], name)
-	}
-	out := map[string]*c01Exp{}
-	for _, name := range vk.SortedKeys(quotas) {
-		out[name] = &c01Exp{pods: map[string]bool{}}
-	}
-	for _, pn := range vk.SortedKeys(pods) {
-		p := pods[pn]
-		if p.In == "" {
-			continue
-		}
-		e := out[p.In]
-		r := p.Spec.request()
-		e.pods[c01PodKey(pn)] = p.Assigned
-		e.self = e.self.add(r)
-		if p.Spec.NonPreempt {
-			e.selfNP = e.selfNP.add(r)
-		}
-		if p.Assigned {
-			e.selfUsed = e.selfUsed.add(r)
-			if p.Spec.NonPreempt {
-				e.selfNPUsed = e.selfNPUsed.add(r)
-			}
-		}
-	}
-	var rec func(name string, depth int)
-	rec = func(name string, depth int) {
-		if depth > 16 {
-			panic("c01: cycle in model tree")
-		}
-		q, e := quotas[name], out[name]
-		e.child, e.np, e.used, e.npUsed = e.self, e.selfNP, e.selfUsed, e.selfNPUsed
-		for _, c := range children[name] {
-			rec(c, depth+1)
-			ce := out[c]
-			e.child = e.child.add(ce.lim)
-			e.np = e.np.add(ce.np)
-			e.used = e.used.add(ce.used)
-			e.npUsed = e.npUsed.add(ce.npUsed)
-		}
-		e.req = e.child
-		if !q.AllowLent {
-			m := q.minEff()
-			for d := 0; d < 2; d++ {
-				if m[d] > e.req[d] {
-					e.req[d] = m[d]
-				}
-			}
-		}
-		e.lim = c01VecMin(e.req, q.Max)
-	}
-	for _, top := range children[extension.RootQuotaName] {
-		rec(top, 0)
-	}
-	return out
-}
-
-// ---------------------------------------------------------------- world
-
-type c01Flags struct {
-	Orphans          bool // pod labels may name quotas that do not exist (default-quota fall-back, migrate cycle); quotas may be deleted with pods inside
-	EagerMigrate     bool // (orphans) the migrate cycle runs right after every quota creation
-	FreezeInFallback bool // (orphans) a pod sitting in the default quota by fall-back is not resized/relabelled
-	ParentPods       bool // pods may be labelled with an is-parent quota (feature SupportParentQuotaSubmitPod)
-	IgnoreTerm       bool // feature ElasticQuotaImmediateIgnoreTerminatingPod
-	ScaleMin         bool
-	NoReparentOver   bool // exclusion pass: never re-parent/delete a quota whose own request exceeds its max
-}
-
-func (f c01Flags) String() string {
-	return fmt.Sprintf("orphans=%v eagerMigrate=%v freezeInFallback=%v parentPods=%v ignoreTerminating=%v scaleMin=%v excludeOverMaxMove=%v",
-		f.Orphans, f.EagerMigrate, f.FreezeInFallback, f.ParentPods, f.IgnoreTerm, f.ScaleMin, f.NoReparentOver)
-}
-
-var c01QuotaNames = []string{"q0", "q1", "q2", "q3", "q4", "q5"}
-var c01PodNames = []string{"p0", "p1", "p2", "p3", "p4", "p5", "p6", "p7"}
-
-type c01World struct {
-	c      *vk.Case
-	gqm    *GroupQuotaManager
-	flags  c01Flags
-	sysMax c01Vec
-	defMax c01Vec
-	quotas map[string]*c01Quota // user quotas + default + system
-	pods   map[string]*c01Pod   // pods known to the informer
-	nodes  map[string]*corev1.Node
-	hist   []string
-	dead   bool
-
-	// context of the operation being checked (for signatures)
-	opKind    string
-	sigHint   string
-	sigFamily string
-
-	// what the case contained
-	sawReparentLoad, sawDeleteLoad, sawOverMax, sawMinRaise, sawMigrate, sawTerminating, sawReset bool
-	sawCrossQuota, sawResize, sawUnreserve, sawParentPods, sawFallback, sawDirtyDelete, sawRootDiff bool
-	excludedMoves                                                                               int
-}
-
-func c01Special(name string) bool {
-	return name == extension.DefaultQuotaName || name == extension.SystemQuotaName
-}
-
-func (w *c01World) userQuotas() []string {
-	var out []string
-	for _, n := range vk.SortedKeys(w.quotas) {
-		if !c01Special(n) {
-			out = append(out, n)
-		}
-	}
-	return out
-}
-
-// route restates the plugin's getPodAssociateQuotaNameAndTreeID: the label if such a quota is
-// known, otherwise the default quota.
-func (w *c01World) route(label string) string {
-	if label == "" {
-		return extension.DefaultQuotaName
-	}
-	if _, ok := w.quotas[label]; ok {
-		return label
-	}
-	return extension.DefaultQuotaName
-}
-
-func (w *c01World) ignored(s c01PodSpec) bool { return w.flags.IgnoreTerm && s.Terminating }
-
-func (w *c01World) log(format string, args ...any) {
-	w.hist = append(w.hist, fmt.Sprintf("%02d ", len(w.hist)+1)+fmt.Sprintf(format, args...))
-}
-
-func (w *c01World) violation(t *rapid.T, sig, format string, args ...any) {
-	if w.dead {
-		return
-	}
-	msg := fmt.Sprintf(format, args...)
-	if w.c.Violation(t, sig, "%s\n  flags: %s\n  quotas now: %s\n  pods now: %s\n  history:\n    %s", msg, w.flags, w.quotaDump(), w.podDump(), strings.Join(w.hist, "\n    ")) {
-		w.dead = true
-	}
-}
-
-func (w *c01World) quotaDump() string {
-	var parts []string
-	for _, n := range vk.SortedKeys(w.quotas) {
-		parts = append(parts, w.quotas[n].String())
-	}
-	return strings.Join(parts, " ")
-}
-
-func (w *c01World) podDump() string {
-	var parts []string
-	for _, n := range vk.SortedKeys(w.pods) {
-		p := w.pods[n]
-		parts = append(parts, fmt.Sprintf("%s in=%q assigned=%v req=%v", p.Spec.String(), p.In, p.Assigned, p.Spec.request()))
-	}
-	return strings.Join(parts, " ")
-}
-
-func (w *c01World) depth(name string) int {
-	d := 0
-	for name != extension.RootQuotaName && d < 32 {
-		name = w.quotas[name].Parent
-		d++
-	}
-	return d
-}
-
-func (w *c01World) childrenOf(name string) []string {
-	var out []string
-	for _, n := range w.userQuotas() {
-		if w.quotas[n].Parent == name {
-			out = append(out, n)
-		}
-	}
-	return out
-}
-
-func (w *c01World) height(name string) int {
-	h := 1
-	for _, c := range w.childrenOf(name) {
-		if x := 1 + w.height(c); x > h {
-			h = x
-		}
-	}
-	return h
-}
-
-func (w *c01World) inSubtree(root, name string) bool {
-	for i := 0; name != extension.RootQuotaName && i < 32; i++ {
-		if name == root {
-			return true
-		}
-		name = w.quotas[name].Parent
-	}
-	return false
-}
-
-func (w *c01World) subtreeHasAssigned(root string) bool {
-	for _, pn := range vk.SortedKeys(w.pods) {
-		p := w.pods[pn]
-		if p.In != "" && p.Assigned && w.inSubtree(root, p.In) {
-			return true
-		}
-	}
-	return false
-}
-
-func (w *c01World) members(q string) []string {
-	var out []string
-	for _, pn := range vk.SortedKeys(w.pods) {
-		if w.pods[pn].In == q {
-			out = append(out, pn)
-		}
-	}
-	return out
-}
-
-// ---------------------------------------------------------------- comparison
-
-type c01Field struct {
-	name string
-	got  func(s *QuotaInfoSummary) corev1.ResourceList
-	want func(e *c01Exp) c01Vec
-}
-
-var c01Fields = []c01Field{
-	{"Request", func(s *QuotaInfoSummary) corev1.ResourceList { return s.Request }, func(e *c01Exp) c01Vec { return e.req }},
-	{"ChildRequest", func(s *QuotaInfoSummary) corev1.ResourceList { return s.ChildRequest }, func(e *c01Exp) c01Vec { return e.child }},
-	{"SelfRequest", func(s *QuotaInfoSummary) corev1.ResourceList { return s.SelfRequest }, func(e *c01Exp) c01Vec { return e.self }},
-	{"NonPreemptibleRequest", func(s *QuotaInfoSummary) corev1.ResourceList { return s.NonPreemptibleRequest }, func(e *c01Exp) c01Vec { return e.np }},
-	{"SelfNonPreemptibleRequest", func(s *QuotaInfoSummary) corev1.ResourceList { return s.SelfNonPreemptibleRequest }, func(e *c01Exp) c01Vec { return e.selfNP }},
-	{"Used", func(s *QuotaInfoSummary) corev1.ResourceList { return s.Used }, func(e *c01Exp) c01Vec { return e.used }},
-	{"SelfUsed", func(s *QuotaInfoSummary) corev1.ResourceList { return s.SelfUsed }, func(e *c01Exp) c01Vec { return e.selfUsed }},
-	{"NonPreemptibleUsed", func(s *QuotaInfoSummary) corev1.ResourceList { return s.NonPreemptibleUsed }, func(e *c01Exp) c01Vec { return e.npUsed }},
-	{"SelfNonPreemptibleUsed", func(s *QuotaInfoSummary) corev1.ResourceList { return s.SelfNonPreemptibleUsed }, func(e *c01Exp) c01Vec { return e.selfNPUsed }},
-}
-
-// sig builds the violation signature: normally <operation>:<what differs>[:<hint>]; when the operation was
-// issued in a situation that is a known root cause of its own (sigFamily) every symptom gets that one signature.
-func (w *c01World) sig(rest string) string {
-	if w.sigFamily != "" {
-		return w.sigFamily
-	}
-	s := w.opKind + ":" + rest
-	if w.sigHint != "" {
-		s += ":" + w.sigHint
-	}
-	return s
-}
-
-const (
-	c01SigMisrouted  = "default-fallback:pod-event-misses-pod-still-counted-in-default-quota"
-	c01SigStaleCache = "migrateCycle:cached-pod-object-stale"
-)
-
-func (w *c01World) begin(kind string) { w.opKind, w.sigHint, w.sigFamily = kind, "", "" }
-
-// check is oracle (a): compare the reported summaries with the from-scratch recomputation.
-func (w *c01World) check(t *rapid.T) {
-	if w.dead {
-		return
-	}
-	exp := c01Expect(w.quotas, w.pods)
-	summ := w.gqm.GetQuotaSummaries(true)
-	for _, name := range vk.SortedKeys(summ) {
-		if _, ok := w.quotas[name]; !ok {
-			w.violation(t, w.sig("quota-set:unexpected"), "manager reports quota %q which does not exist (any more)", name)
-			return
-		}
-	}
-	names := vk.SortedKeys(w.quotas)
-	for _, name := range names {
-		s := summ[name]
-		if s == nil {
-			w.violation(t, w.sig("quota-set:missing"), "manager does not report quota %q", name)
-			return
-		}
-		q := w.quotas[name]
-		gotMax, _ := c01FromRL(s.Max)
-		gotMin, _ := c01FromRL(s.Min)
-		if s.ParentName != q.Parent || s.IsParent != q.IsParent || s.AllowLentResource != q.AllowLent || gotMax != q.Max || gotMin != q.minEff() {
-			w.violation(t, w.sig("meta"), "quota %q reported parent=%s isParent=%v lent=%v max=%v min=%v; last delivered object says %s",
-				name, s.ParentName, s.IsParent, s.AllowLentResource, gotMax, gotMin, q)
-			return
-		}
-	}
-	// membership and assigned flags
-	for _, name := range names {
-		s, e := summ[name], exp[name]
-		for _, key := range vk.SortedKeys(s.PodCache) {
-			if _, ok := e.pods[key]; !ok {
-				w.violation(t, w.sig("podcache:unexpected-pod"), "quota %q still holds pod %s which should not be counted there", name, key)
-				return
-			}
-		}
-		for _, key := range vk.SortedKeys(e.pods) {
-			pi, ok := s.PodCache[key]
-			if !ok {
-				w.violation(t, w.sig("podcache:missing-pod"), "quota %q does not hold pod %s", name, key)
-				return
-			}
-			if pi.IsAssigned != e.pods[key] {
-				w.violation(t, w.sig("podcache:assigned-flag"), "quota %q pod %s isAssigned=%v, expected %v", name, key, pi.IsAssigned, e.pods[key])
-				return
-			}
-		}
-	}
-	// figures: field-major so that the signature does not depend on quota names
-	for _, f := range c01Fields {
-		for _, name := range names {
-			got, foreign := c01FromRL(f.got(summ[name]))
-			want := f.want(exp[name])
-			if foreign != "" {
-				w.violation(t, w.sig(f.name+":foreign-dimension"), "quota %q %s carries a dimension no quota declares: %s", name, f.name, foreign)
-				return
-			}
-			for d := 0; d < 2; d++ {
-				if got[d] != want[d] {
-					dir := "under"
-					if got[d] > want[d] {
-						dir = "over"
-					}
-					e := exp[name]
-					w.violation(t, w.sig(f.name+":"+dir), "quota %q %s[%s]: reported %d, recomputed from scratch %d (reported %v, expected %v; expected self=%v childRequest=%v request=%v limited=%v used=%v)",
-						name, f.name, c01DimName[d], got[d], want[d], got, want, e.self, e.child, e.req, e.lim, e.used)
-					return
-				}
-			}
-		}
-	}
-	// distribution
-	for _, name := range names {
-		q, e := w.quotas[name], exp[name]
-		m := q.minEff()
-		for d := 0; d < 2; d++ {
-			if e.req[d] > q.Max[d] && !c01Special(name) {
-				w.sawOverMax = true
-			}
-			if !q.AllowLent && e.child[d] < m[d] {
-				w.sawMinRaise = true
-			}
-		}
-		if q.IsParent && len(e.pods) > 0 {
-			w.sawParentPods = true
-		}
-	}
-	// the abstract root group is not part of GetQuotaSummaries; observed, not asserted
-	if root := w.gqm.GetQuotaInfoByName(extension.RootQuotaName); root != nil {
-		var wantReq, wantUsed c01Vec
-		for _, name := range names {
-			if w.quotas[name].Parent == extension.RootQuotaName {
-				wantReq = wantReq.add(exp[name].lim)
-				wantUsed = wantUsed.add(exp[name].used)
-			}
-		}
-		gr, _ := c01FromRL(root.GetRequest())
-		gu, _ := c01FromRL(root.GetUsed())
-		if gr != wantReq || gu != wantUsed {
-			w.sawRootDiff = true
-		}
-	}
-}
-
-func (w *c01World) freshManager() *GroupQuotaManager {
-	fresh := NewGroupQuotaManager("", w.flags.ScaleMin, c01RL(w.sysMax, c01Both), c01RL(w.defMax, c01Both))
-	users := w.userQuotas()
-	sort.SliceStable(users, func(i, j int) bool { return w.depth(users[i]) < w.depth(users[j]) })
-	for _, n := range users {
-		_ = fresh.UpdateQuota(w.quotas[n].build())
-	}
-	for _, pn := range vk.SortedKeys(w.pods) {
-		p := w.pods[pn]
-		if p.In == "" {
-			continue
-		}
-		obj := p.Spec.build()
-		fresh.OnPodAdd(p.In, obj)
-		if p.Assigned && !fresh.GetQuotaInfoByName(p.In).CheckPodIsAssigned(obj) {
-			fresh.ReservePod(p.In, obj)
-		}
-	}
-	return fresh
-}
-
-// differential is oracle (b): a fresh manager fed the final objects must report the same figures.
-func (w *c01World) differential(t *rapid.T, where string) {
-	if w.dead {
-		return
-	}
-	a := w.gqm.GetQuotaSummaries(true)
-	b := w.freshManager().GetQuotaSummaries(true)
-	for _, f := range c01Fields {
-		for _, name := range vk.SortedKeys(w.quotas) {
-			sa, sb := a[name], b[name]
-			if sa == nil || sb == nil {
-				w.violation(t, "differential:quota-set", "%s: quota %q present incremental=%v fresh=%v", where, name, sa != nil, sb != nil)
-				return
-			}
-			va, _ := c01FromRL(f.got(sa))
-			vb, _ := c01FromRL(f.got(sb))
-			if va != vb {
-				w.violation(t, "differential:"+f.name, "%s: quota %q %s: incrementally maintained %v, fresh manager fed the final objects %v", where, name, f.name, va, vb)
-				return
-			}
-		}
-	}
-	for _, name := range vk.SortedKeys(w.quotas) {
-		pa, pb := a[name].PodCache, b[name].PodCache
-		for _, k := range vk.SortedKeys(pb) {
-			if pa[k] == nil || pa[k].IsAssigned != pb[k].IsAssigned {
-				w.violation(t, "differential:podcache", "%s: quota %q pod %s: incremental %+v fresh %+v", where, name, k, pa[k], pb[k])
-				return
-			}
-		}
-		if len(pa) != len(pb) {
-			w.violation(t, "differential:podcache", "%s: quota %q holds %d pods incrementally, %d in a fresh manager", where, name, len(pa), len(pb))
-			return
-		}
-	}
-}
-
-// ---------------------------------------------------------------- the calls the plugin makes
-
-func (w *c01World) plugPodAdd(p *c01Pod) { w.gqm.OnPodAdd(w.route(p.Spec.Label), p.Obj) }
-
-func (w *c01World) plugPodUpdate(oldSpec c01PodSpec, oldObj *corev1.Pod, p *c01Pod) {
-	w.gqm.OnPodUpdate(w.route(p.Spec.Label), w.route(oldSpec.Label), p.Obj, oldObj)
-}
-
-func (w *c01World) plugPodDelete(p *c01Pod) { w.gqm.OnPodDelete(w.route(p.Spec.Label), p.Obj) }
-
-// assumed is the copy the scheduling cycle hands to Reserve/Unreserve: the queued pod with NodeName filled in.
-func c01Assumed(p *c01Pod) *corev1.Pod {
-	a := p.Obj.DeepCopy()
-	if a.Spec.NodeName == "" {
-		a.Spec.NodeName = "assumed-node"
-	}
-	return a
-}
-
-// plugMigrateCycle restates Plugin.migrateDefaultQuotaGroupsPod: it walks the default quota's pod
-// cache (the objects stored there, exactly as the plugin does) and moves every pod whose label now
-// names an existing quota. Returns whether a cached object differed from the last delivered one.
-func (w *c01World) plugMigrateCycle() (moved int, stale bool) {
-	def := w.gqm.GetQuotaInfoByName(extension.DefaultQuotaName)
-	cache := def.GetPodCache()
-	for _, key := range vk.SortedKeys(cache) {
-		pod := cache[key]
-		target := w.route(pod.Labels[extension.LabelQuotaName])
-		if target == extension.DefaultQuotaName || w.gqm.GetQuotaInfoByName(target) == nil {
-			continue
-		}
-		if mp := w.pods[pod.Name]; mp != nil && mp.Obj != pod {
-			if mp.Spec.Label != pod.Labels[extension.LabelQuotaName] || fmt.Sprint(c01PodRequestsDump(mp.Obj)) != fmt.Sprint(c01PodRequestsDump(pod)) {
-				stale = true
-			}
-		}
-		w.gqm.MigratePod(pod, extension.DefaultQuotaName, target)
-		moved++
-	}
-	return
-}
-
-// c01PodRequestsDump renders container requests for a staleness comparison (not an oracle).
-func c01PodRequestsDump(p *corev1.Pod) string {
-	var b strings.Builder
-	for _, c := range p.Spec.Containers {
-		for _, n := range c01SortedResourceNames(c.Resources.Requests) {
-			q := c.Resources.Requests[n]
-			fmt.Fprintf(&b, "%s=%s,", n, q.String())
-		}
-		b.WriteString(";")
-	}
-	return b.String()
-}
-
-// ---------------------------------------------------------------- generators for quota specs
-
-func c01GenMax(t *rapid.T) c01Vec {
-	return c01Vec{c01GenAmount(t, 0, "maxCPU"), c01GenAmount(t, 1, "maxMem")}
-}
-
-func c01GenMin(t *rapid.T, max c01Vec) (min c01Vec, has [2]bool) {
-	for d := 0; d < 2; d++ {
-		switch rapid.IntRange(0, 5).Draw(t, "minKind"+c01DimName[d]) {
-		case 0:
-			// key absent
-		case 1, 2:
-			has[d] = true // zero
-		case 3:
-			has[d], min[d] = true, max[d]
-		case 4:
-			has[d] = true
-			if max[d] > 0 {
-				min[d] = max[d] - 1
-			}
-		default:
-			has[d], min[d] = true, rapid.Int64Range(0, max[d]).Draw(t, "min"+c01DimName[d])
-		}
-	}
-	return
-}
-
-// ---------------------------------------------------------------- operations
-
-type c01Op struct {
-	name   string
-	weight int
-	run    func(t *rapid.T)
-}
-
-func (w *c01World) parentCandidates(maxDepth int) []string {
-	out := []string{extension.RootQuotaName}
-	for _, n := range w.userQuotas() {
-		if w.quotas[n].IsParent && w.depth(n) < maxDepth {
-			out = append(out, n)
-		}
-	}
-	return out
-}
-
-func (w *c01World) opQuotaCreate(t *rapid.T) {
-	var free []string
-	for _, n := range c01QuotaNames {
-		if _, ok := w.quotas[n]; !ok {
-			free = append(free, n)
-		}
-	}
-	name := rapid.SampledFrom(free).Draw(t, "newQuota")
-	parent := rapid.SampledFrom(w.parentCandidates(3)).Draw(t, "parent")
-	q := &c01Quota{Name: name, Parent: parent}
-	depth := 1
-	if parent != extension.RootQuotaName {
-		depth = w.depth(parent) + 1
-	}
-	q.IsParent = depth < 3 && rapid.IntRange(0, 2).Draw(t, "isParent") == 0
-	q.AllowLent = rapid.IntRange(0, 2).Draw(t, "allowLent") > 0
-	q.Max = c01GenMax(t)
-	q.Min, q.MinHas = c01GenMin(t, q.Max)
-	if rapid.IntRange(0, 2).Draw(t, "hasWeight") == 0 {
-		q.Weight = c01Vec{rapid.Int64Range(1, 4000).Draw(t, "wCPU"), rapid.Int64Range(1, 1<<20).Draw(t, "wMem")}
-	}
-	w.begin("quotaCreate")
-	w.quotas[name] = q
-	w.log("quotaCreate %s", q)
-	if err := w.gqm.UpdateQuota(q.build()); err != nil {
-		w.violation(t, "quotaCreate:error", "UpdateQuota(%s) returned %v", q, err)
-		return
-	}
-	if w.flags.Orphans && w.flags.EagerMigrate {
-		w.check(t)
-		w.opMigrate(t)
-	}
-}
-
-func (w *c01World) opQuotaUpdate(t *rapid.T) {
-	name := rapid.SampledFrom(w.userQuotas()).Draw(t, "quota")
-	q := w.quotas[name]
-	what := rapid.IntRange(1, 7).Draw(t, "what") // bit0 max, bit1 min, bit2 weight
-	if what&1 != 0 {
-		q.Max = c01GenMax(t)
-		for d := 0; d < 2; d++ { // the webhook rejects min > max: such an update lowers min as well
-			if q.Min[d] > q.Max[d] {
-				q.Min[d] = q.Max[d]
-			}
-		}
-	}
-	if what&2 != 0 {
-		q.Min, q.MinHas = c01GenMin(t, q.Max)
-	}
-	if what&4 != 0 {
-		q.Weight = c01Vec{rapid.Int64Range(0, 4000).Draw(t, "wCPU"), rapid.Int64Range(0, 1<<20).Draw(t, "wMem")}
-		if q.Weight[0] == 0 || q.Weight[1] == 0 {
-			q.Weight = c01Vec{}
-		}
-	}
-	w.begin("quotaUpdate")
-	w.log("quotaUpdate(what=%d) %s", what, q)
-	if err := w.gqm.UpdateQuota(q.build()); err != nil {
-		w.violation(t, "quotaUpdate:error", "UpdateQuota(%s) returned %v", q, err)
-	}
-}
-
-func (w *c01World) opToggleLent(t *rapid.T) {
-	name := rapid.SampledFrom(w.userQuotas()).Draw(t, "quota")
-	q := w.quotas[name]
-	q.AllowLent = !q.AllowLent
-	w.begin("quotaToggleLent")
-	w.sawReset = true
-	w.log("quotaToggleLent %s", q)
-	if err := w.gqm.UpdateQuota(q.build()); err != nil {
-		w.violation(t, "quotaToggleLent:error", "UpdateQuota(%s) returned %v", q, err)
-	}
-}
-
-func (w *c01World) toggleParentCandidates() []string {
-	var out []string
-	for _, n := range w.userQuotas() {
-		q := w.quotas[n]
-		if q.IsParent && len(w.childrenOf(n)) == 0 {
-			out = append(out, n) // true -> false needs no children
-		}
-		if !q.IsParent && len(w.members(n)) == 0 && w.depth(n) < 3 {
-			out = append(out, n) // false -> true needs no pods
-		}
-	}
-	return out
-}
-
-func (w *c01World) opToggleIsParent(t *rapid.T) {
-	name := rapid.SampledFrom(w.toggleParentCandidates()).Draw(t, "quota")
-	q := w.quotas[name]
-	q.IsParent = !q.IsParent
-	w.begin("quotaToggleIsParent")
-	w.sawReset = true
-	w.log("quotaToggleIsParent %s", q)
-	if err := w.gqm.UpdateQuota(q.build()); err != nil {
-		w.violation(t, "quotaToggleIsParent:error", "UpdateQuota(%s) returned %v", q, err)
-	}
-}
-
-func (w *c01World) overMax(name string) bool {
-	e := c01Expect(w.quotas, w.pods)[name]
-	q := w.quotas[name]
-	return e.req[0] > q.Max[0] || e.req[1] > q.Max[1]
-}
-
-type c01Move struct{ q, to string }
-
-func (w *c01World) reparentMoves() []c01Move {
-	var out []c01Move
-	for _, n := range w.userQuotas() {
-		if w.flags.NoReparentOver && w.overMax(n) {
-			continue
-		}
-		h := w.height(n)
-		for _, p := range w.parentCandidates(8) {
-			if p == w.quotas[n].Parent || p == n {
-				continue
-			}
-			pd := 0
-			if p != extension.RootQuotaName {
-				if w.inSubtree(n, p) {
-					continue
-				}
-				pd = w.depth(p)
-			}
-			if pd+h > 4 {
-				continue
-			}
-			out = append(out, c01Move{n, p})
-		}
-	}
-	return out
-}
-
-func (w *c01World) opReparent(t *rapid.T) {
-	moves := w.reparentMoves()
-	mv := moves[rapid.IntRange(0, len(moves)-1).Draw(t, "move")]
-	q := w.quotas[mv.q]
-	load := w.subtreeHasAssigned(mv.q)
-	over := w.overMax(mv.q)
-	old := q.Parent
-	q.Parent = mv.to
-	if rapid.IntRange(0, 3).Draw(t, "alsoMax") == 0 {
-		q.Max = c01GenMax(t)
-		for d := 0; d < 2; d++ {
-			if q.Min[d] > q.Max[d] {
-				q.Min[d] = q.Max[d]
-			}
-		}
-	}
-	w.begin("quotaReparent")
-	if over {
-		w.sigHint = "moved-quota-over-max"
-	}
-	if load {
-		w.sawReparentLoad = true
-	}
-	w.log("quotaReparent %s -> parent %s (was %s; subtree has assigned pod=%v; request>max before=%v) now %s", mv.q, mv.to, old, load, over, q)
-	if err := w.gqm.UpdateQuota(q.build()); err != nil {
-		w.violation(t, "quotaReparent:error", "UpdateQuota(%s) returned %v", q, err)
-	}
-}
-
-func (w *c01World) deleteCandidates() []string {
-	var out []string
-	for _, n := range w.userQuotas() {
-		if len(w.childrenOf(n)) == 0 {
-			out = append(out, n)
-		}
-	}
-	return out
-}
-
-func (w *c01World) opQuotaDelete(t *rapid.T) {
-	name := rapid.SampledFrom(w.deleteCandidates()).Draw(t, "quota")
-	q := w.quotas[name]
-	dirty := w.flags.Orphans && rapid.Bool().Draw(t, "withPodsInside")
-	if dirty && w.flags.NoReparentOver && w.overMax(name) {
-		dirty = false
-		w.excludedMoves++
-	}
-	if !dirty {
-		// the order the webhook enforces: the quota's pods are gone before the quota
-		for _, pn := range vk.SortedKeys(w.pods) {
-			if w.pods[pn].In == name || w.pods[pn].Spec.Label == name {
-				w.podDelete(t, pn)
-				w.check(t)
-				if w.dead {
-					return
-				}
-			}
-		}
-	}
-	load := w.subtreeHasAssigned(name)
-	over := w.overMax(name)
-	w.begin("quotaDelete")
-	if over {
-		w.sigHint = "deleted-quota-over-max"
-	}
-	if load {
-		w.sawDeleteLoad = true
-	}
-	if len(w.members(name)) > 0 {
-		w.sawDirtyDelete = true
-	}
-	w.log("quotaDelete %s (pods inside=%v; assigned pod inside=%v; request>max before=%v)", name, w.members(name), load, over)
-	obj := q.build()
-	delete(w.quotas, name)
-	for _, pn := range w.membersOfDeleted(name) {
-		w.pods[pn].In, w.pods[pn].Assigned = "", false
-	}
-	if err := w.gqm.DeleteQuota(obj); err != nil {
-		w.violation(t, "quotaDelete:error", "DeleteQuota(%s) returned %v", name, err)
-	}
-}
-
-func (w *c01World) membersOfDeleted(q string) []string {
-	var out []string
-	for _, pn := range vk.SortedKeys(w.pods) {
-		if w.pods[pn].In == q {
-			out = append(out, pn)
-		}
-	}
-	return out
-}
-
-func (w *c01World) labelChoices() []string {
-	out := []string{"", ""}
-	if w.flags.Orphans {
-		out = append(out, c01QuotaNames...)
-	}
-	for _, n := range w.userQuotas() {
-		if w.quotas[n].IsParent && !w.flags.ParentPods {
-			continue
-		}
-		out = append(out, n, n)
-	}
-	out = append(out, extension.SystemQuotaName)
-	return out
-}
-
-func (w *c01World) opPodAdd(t *rapid.T) {
-	var free []string
-	for _, n := range c01PodNames {
-		if _, ok := w.pods[n]; !ok {
-			free = append(free, n)
-		}
-	}
-	s := c01PodSpec{Name: rapid.SampledFrom(free).Draw(t, "newPod")}
-	s.Label = rapid.SampledFrom(w.labelChoices()).Draw(t, "label")
-	s.NonPreempt = rapid.IntRange(0, 3).Draw(t, "nonPreempt") == 0
-	n := rapid.IntRange(1, 2).Draw(t, "containers")
-	for i := 0; i < n; i++ {
-		s.Ctrs = append(s.Ctrs, c01GenRes(t, fmt.Sprintf("c%d", i)))
-	}
-	if rapid.IntRange(0, 5).Draw(t, "hasInit") == 0 {
-		r := c01GenRes(t, "init")
-		s.Init = &r
-	}
-	if rapid.IntRange(0, 3).Draw(t, "alreadyBound") == 0 {
-		s.Node = "node-a" // fail-over: the pod is already bound when it is first seen
-	}
-	if rapid.IntRange(0, 9).Draw(t, "alreadyTerminating") == 0 {
-		s.Terminating = true
-		w.sawTerminating = true
-	}
-	p := &c01Pod{Spec: s, Obj: s.build()}
-	w.pods[s.Name] = p
-	target := w.route(s.Label)
-	if !w.ignored(s) {
-		p.In, p.Assigned = target, s.Node != ""
-	}
-	if s.Label != "" && target == extension.DefaultQuotaName && s.Label != extension.DefaultQuotaName {
-		w.sawFallback = true
-	}
-	w.begin("podAdd")
-	w.log("podAdd %s -> %s", s, target)
-	w.plugPodAdd(p)
-}
-
-// misrouted: the pod is counted in one quota while the plugin would now route its events to another
-// (it sits in the default quota by fall-back and its own quota has appeared since).
-func (w *c01World) misrouted(p *c01Pod) bool { return p.In != "" && p.In != w.route(p.Spec.Label) }
-
-func (w *c01World) inFallback(p *c01Pod) bool {
-	return p.In == extension.DefaultQuotaName && p.Spec.Label != "" && p.Spec.Label != extension.DefaultQuotaName
-}
-
-func (w *c01World) opPodUpdate(t *rapid.T) {
-	name := rapid.SampledFrom(vk.SortedKeys(w.pods)).Draw(t, "pod")
-	p := w.pods[name]
-	oldSpec, oldObj := p.Spec, p.Obj
-	s := p.Spec.clone()
-	s.RV++
-	frozen := w.flags.FreezeInFallback && w.inFallback(p)
-	kinds := []string{"touch", "bind", "terminate"}
-	if !frozen {
-		kinds = append(kinds, "resize", "resize", "relabel", "relabel", "resize+relabel")
-	}
-	kind := rapid.SampledFrom(kinds).Draw(t, "updateKind")
-	if strings.Contains(kind, "resize") {
-		i := rapid.IntRange(0, len(s.Ctrs)-1).Draw(t, "ctr")
-		s.Ctrs[i] = c01GenRes(t, "resized")
-		w.sawResize = true
-	}
-	if strings.Contains(kind, "relabel") {
-		s.Label = rapid.SampledFrom(w.labelChoices()).Draw(t, "label")
-	}
-	if kind == "bind" && s.Node == "" {
-		s.Node = "node-a"
-	}
-	if kind == "terminate" {
-		s.Terminating = true
-		w.sawTerminating = true
-	}
-	mis := w.misrouted(p)
-	p.Spec, p.Obj = s, s.build()
-	target := w.route(s.Label)
-	switch {
-	case w.ignored(s):
-		p.In, p.Assigned = "", false
-	case p.In == target:
-		if !p.Assigned && s.Node != "" {
-			p.Assigned = true
-		}
-	default:
-		if p.In != "" {
-			w.sawCrossQuota = true
-		}
-		p.In, p.Assigned = target, s.Node != ""
-	}
-	if s.Label != "" && target == extension.DefaultQuotaName && s.Label != extension.DefaultQuotaName {
-		w.sawFallback = true
-	}
-	w.begin("podUpdate")
-	if mis {
-		w.sigFamily = c01SigMisrouted
-	}
-	w.log("podUpdate(%s) %s -> %s (event routed old=%s new=%s)", kind, s, target, w.route(oldSpec.Label), target)
-	w.plugPodUpdate(oldSpec, oldObj, p)
-}
-
-func (w *c01World) podDelete(t *rapid.T, name string) {
-	p := w.pods[name]
-	w.begin("podDelete")
-	if w.misrouted(p) {
-		w.sigFamily = c01SigMisrouted
-	}
-	w.log("podDelete %s (member of %q, event routed to %s)", name, p.In, w.route(p.Spec.Label))
-	delete(w.pods, name)
-	w.plugPodDelete(p)
+func c01NewManager(scaleMin bool, sysMax, defMax corev1.ResourceList) *c01Manager {
+	return NewGroupQuotaManager("", scaleMin, sysMax, defMax)
 }
-
-func (w *c01World) opPodDelete(t *rapid.T) {
-	w.podDelete(t, rapid.SampledFrom(vk.SortedKeys(w.pods)).Draw(t, "pod"))
-}
-
-func (w *c01World) reserveCandidates() []string {
-	var out []string
-	for _, pn := range vk.SortedKeys(w.pods) {
-		p := w.pods[pn]
-		if p.In != "" && !w.misrouted(p) && !p.Assigned {
-			out = append(out, pn)
-		}
-	}
-	return out
-}
-
-func (w *c01World) opReserve(t *rapid.T) {
-	name := rapid.SampledFrom(w.reserveCandidates()).Draw(t, "pod")
-	p := w.pods[name]
-	p.Assigned = true
-	w.begin("reserve")
-	w.log("reserve %s in %s", name, p.In)
-	w.gqm.ReservePod(w.route(p.Spec.Label), c01Assumed(p))
-}
-
-func (w *c01World) unreserveCandidates() []string {
-	var out []string
-	for _, pn := range vk.SortedKeys(w.pods) {
-		p := w.pods[pn]
-		if p.In != "" && !w.misrouted(p) && p.Assigned && p.Spec.Node == "" {
-			out = append(out, pn)
-		}
-	}
-	return out
-}
-
-func (w *c01World) opUnreserve(t *rapid.T) {
-	name := rapid.SampledFrom(w.unreserveCandidates()).Draw(t, "pod")
-	p := w.pods[name]
-	p.Assigned = false
-	w.sawUnreserve = true
-	w.begin("unreserve")
-	w.log("unreserve %s in %s", name, p.In)
-	w.gqm.UnreservePod(w.route(p.Spec.Label), c01Assumed(p))
-}
-
-func (w *c01World) opMigrate(t *rapid.T) {
-	var movedModel []string
-	for _, pn := range vk.SortedKeys(w.pods) {
-		p := w.pods[pn]
-		if p.In == extension.DefaultQuotaName && w.route(p.Spec.Label) != extension.DefaultQuotaName {
-			p.In = w.route(p.Spec.Label)
-			movedModel = append(movedModel, pn+"->"+p.In)
-		}
-	}
-	w.begin("migrateCycle")
-	n, stale := w.plugMigrateCycle()
-	if stale {
-		w.sigFamily = c01SigStaleCache
-	}
-	if n > 0 {
-		w.sawMigrate = true
-	}
-	w.log("migrateCycle (model moves %v; MigratePod calls=%d; a cached pod object was stale=%v)", movedModel, n, stale)
-}
-
-func (w *c01World) opNode(t *rapid.T) {
-	name := rapid.SampledFrom([]string{"n0", "n1", "n2"}).Draw(t, "node")
-	alloc := c01RL(c01Vec{c01GenAmount(t, 0, "nodeCPU"), c01GenAmount(t, 1, "nodeMem")}, c01Both)
-	w.begin("node")
-	old := w.nodes[name]
-	switch {
-	case old == nil:
-		n := &corev1.Node{ObjectMeta: metav1.ObjectMeta{Name: name}, Status: corev1.NodeStatus{Allocatable: alloc}}
-		w.nodes[name] = n
-		w.log("nodeAdd %s", name)
-		w.gqm.OnNodeAdd(n)
-	case rapid.Bool().Draw(t, "nodeDelete"):
-		delete(w.nodes, name)
-		w.log("nodeDelete %s", name)
-		w.gqm.OnNodeDelete(old)
-	default:
-		n := old.DeepCopy()
-		n.Status.Allocatable = alloc
-		w.nodes[name] = n
-		w.log("nodeUpdate %s", name)
-		w.gqm.OnNodeUpdate(old, n)
-	}
-}
-
-func (w *c01World) opReset(t *rapid.T) {
-	w.begin("resetQuota")
-	w.sawReset = true
-	w.log("resetQuota")
-	w.gqm.ResetQuota()
-	w.check(t)
-	w.differential(t, "after resetQuota")
-}
-
-func (w *c01World) opRefreshRuntime(t *rapid.T) {
-	name := rapid.SampledFrom(vk.SortedKeys(w.quotas)).Draw(t, "quota")
-	w.begin("refreshRuntime")
-	w.log("refreshRuntime %s", name)
-	w.gqm.RefreshRuntime(name)
-}
-
-func (w *c01World) enabledOps() []c01Op {
-	var ops []c01Op
-	add := func(name string, weight int, on bool, run func(t *rapid.T)) {
-		if on {
-			ops = append(ops, c01Op{name, weight, run})
-		}
-	}
-	users := w.userQuotas()
-	add("quotaCreate", 4, len(users) < len(c01QuotaNames), w.opQuotaCreate)
-	add("quotaUpdate", 4, len(users) > 0, w.opQuotaUpdate)
-	add("quotaToggleLent", 1, len(users) > 0, w.opToggleLent)
-	add("quotaToggleIsParent", 1, len(w.toggleParentCandidates()) > 0, w.opToggleIsParent)
-	add("quotaReparent", 5, len(w.reparentMoves()) > 0, w.opReparent)
-	add("quotaDelete", 2, len(w.deleteCandidates()) > 0, w.opQuotaDelete)
-	add("podAdd", 6, len(w.pods) < len(c01PodNames), w.opPodAdd)
-	add("podUpdate", 6, len(w.pods) > 0, w.opPodUpdate)
-	add("podDelete", 2, len(w.pods) > 0, w.opPodDelete)
-	add("reserve", 4, len(w.reserveCandidates()) > 0, w.opReserve)
-	add("unreserve", 2, len(w.unreserveCandidates()) > 0, w.opUnreserve)
-	add("migrateCycle", 2, w.flags.Orphans, w.opMigrate)
-	add("node", 1, true, w.opNode)
-	add("resetQuota", 1, true, w.opReset)
-	add("refreshRuntime", 1, true, w.opRefreshRuntime)
-	return ops
-}
-
-func (w *c01World) step(t *rapid.T) {
-	if w.dead {
-		return
-	}
-	ops := w.enabledOps()
-	var menu []int
-	for i, o := range ops {
-		for k := 0; k < o.weight; k++ {
-			menu = append(menu, i)
-		}
-	}
-	op := ops[menu[rapid.IntRange(0, len(menu)-1).Draw(t, "op")]]
-	op.run(t)
-}
-
-// ---------------------------------------------------------------- set-up shared by the tests
 
 func c01Quiet() {
 	klog.LogToStderr(false)
 	klog.SetOutput(io.Discard)
 }
 
-func c01SetIgnoreTerminating(on bool) {
-	_ = utilfeature.DefaultMutableFeatureGate.Set(fmt.Sprintf("%s=%v", features.ElasticQuotaImmediateIgnoreTerminatingPod, on))
+type c01CoreDriver struct{ gqm *GroupQuotaManager }
+
+func c01NewCoreDriver(scaleMin bool, sysMax, defMax corev1.ResourceList) c01Driver {
+	return &c01CoreDriver{c01NewManager(scaleMin, sysMax, defMax)}
 }
 
-func c01NewWorld(t *rapid.T, c *vk.Case, flags c01Flags) *c01World {
-	w := &c01World{c: c, flags: flags, quotas: map[string]*c01Quota{}, pods: map[string]*c01Pod{}, nodes: map[string]*corev1.Node{}}
-	big := c01Vec{1 << 50, 1 << 60}
-	w.sysMax, w.defMax = big, big
-	if rapid.IntRange(0, 2).Draw(t, "smallDefaultMax") == 0 {
-		w.defMax = c01GenMax(t)
-	}
-	w.gqm = NewGroupQuotaManager("", flags.ScaleMin, c01RL(w.sysMax, c01Both), c01RL(w.defMax, c01Both))
-	w.quotas[extension.DefaultQuotaName] = &c01Quota{Name: extension.DefaultQuotaName, Parent: extension.RootQuotaName, AllowLent: true, Max: w.defMax}
-	w.quotas[extension.SystemQuotaName] = &c01Quota{Name: extension.SystemQuotaName, Parent: extension.RootQuotaName, AllowLent: true, Max: w.sysMax}
-	w.log("new manager defaultMax=%v systemMax=%v", w.defMax, w.sysMax)
-	return w
-}
+func (d *c01CoreDriver) Manager() *c01Manager { return d.gqm }
 
-func c01GenFlags(t *rapid.T) c01Flags {
-	f := c01Flags{
-		Orphans:    rapid.Bool().Draw(t, "orphans"),
-		ParentPods: rapid.Bool().Draw(t, "parentPods"),
-		IgnoreTerm: rapid.IntRange(0, 2).Draw(t, "ignoreTerminating") == 0,
-		ScaleMin:   rapid.Bool().Draw(t, "scaleMin"),
-	}
-	if f.Orphans {
-		f.EagerMigrate = rapid.Bool().Draw(t, "eagerMigrate")
-		f.FreezeInFallback = rapid.Bool().Draw(t, "freezeInFallback")
-	}
-	f.NoReparentOver = rapid.IntRange(0, 2).Draw(t, "excludeOverMaxMove") == 0
-	return f
+// OnQuotaAdd / OnQuotaUpdate both end in UpdateQuota(new) (an add for a quota the manager already knows is dropped
+// by the plugin; the model never re-adds a live quota).
+func (d *c01CoreDriver) QuotaUpsert(old, new *v1alpha1.ElasticQuota) error { return d.gqm.UpdateQuota(new) }
+func (d *c01CoreDriver) QuotaDelete(obj *v1alpha1.ElasticQuota) error      { return d.gqm.DeleteQuota(obj) }
+func (d *c01CoreDriver) PodAdd(route string, pod *corev1.Pod)              { d.gqm.OnPodAdd(route, pod) }
+func (d *c01CoreDriver) PodUpdate(newRoute, oldRoute string, newPod, oldPod *corev1.Pod) {
+	d.gqm.OnPodUpdate(newRoute, oldRoute, newPod, oldPod)
 }
+func (d *c01CoreDriver) PodDelete(route string, pod *corev1.Pod)     { d.gqm.OnPodDelete(route, pod) }
+func (d *c01CoreDriver) Reserve(route string, assumed *corev1.Pod)   { d.gqm.ReservePod(route, assumed) }
+func (d *c01CoreDriver) Unreserve(route string, assumed *corev1.Pod) { d.gqm.UnreservePod(route, assumed) }
+func (d *c01CoreDriver) NodeAdd(n *corev1.Node)                      { d.gqm.OnNodeAdd(n) }
+func (d *c01CoreDriver) NodeUpdate(old, n *corev1.Node)              { d.gqm.OnNodeUpdate(old, n) }
+func (d *c01CoreDriver) NodeDelete(n *corev1.Node)                   { d.gqm.OnNodeDelete(n) }
 
-// ---------------------------------------------------------------- (1) sequential histories
+// MigrateCycle restates Plugin.migrateDefaultQuotaGroupsPod: walk the default quota's pod cache (the objects stored
+// there, exactly as the plugin does) and move every pod whose label now names an existing quota.
+func (d *c01CoreDriver) MigrateCycle(route func(label string) string) {
+	cache := d.gqm.GetQuotaInfoByName(extension.DefaultQuotaName).GetPodCache()
+	for _, key := range vk.SortedKeys(cache) {
+		pod := cache[key]
+		target := route(pod.Labels[extension.LabelQuotaName])
+		if target == extension.DefaultQuotaName || d.gqm.GetQuotaInfoByName(target) == nil {
+			continue
+		}
+		d.gqm.MigratePod(pod, extension.DefaultQuotaName, target)
+	}
+}
 
 func TestVerifC01CoreHistory(t *testing.T) {
 	c01Quiet()
 	rec := vk.New(t, "C01", "coreHistory")
-	rapid.Check(t, func(t *rapid.T) {
-		c := rec.Begin()
-		defer c.End()
-		flags := c01GenFlags(t)
-		c01SetIgnoreTerminating(flags.IgnoreTerm)
-		defer c01SetIgnoreTerminating(false)
-		w := c01NewWorld(t, c, flags)
+	rapid.Check(t, func(t *rapid.T) { c01RunHistory(t, rec, c01NewCoreDriver) })
+}
 
-		// warm start with the ordinary operations so that short cases already have a tree and pods
-		nq := rapid.IntRange(0, 4).Draw(t, "warmQuotas")
-		for i := 0; i < nq && !w.dead; i++ {
-			w.opQuotaCreate(t)
-			w.check(t)
-		}
-		np := rapid.IntRange(0, 4).Draw(t, "warmPods")
-		for i := 0; i < np && !w.dead; i++ {
-			w.opPodAdd(t)
-			w.check(t)
-		}
-		t.Repeat(map[string]func(*rapid.T){
-			"op": w.step,
-			"":   w.check,
-		})
-		w.begin("end")
-		w.differential(t, "end of run")
-
-		c.ClassIf(w.sawReparentLoad, "reparent-with-load")
-		c.ClassIf(w.sawDeleteLoad, "delete-with-load")
-		c.ClassIf(w.sawOverMax, "over-max")
-		c.ClassIf(w.sawMinRaise, "non-lent-min-raise")
-		c.ClassIf(w.sawMigrate, "migrate")
-		c.ClassIf(w.sawTerminating, "terminating")
-		c.ClassIf(w.sawReset, "reset")
-		c.ClassIf(w.sawCrossQuota, "pod-moved-between-quotas")
-		c.ClassIf(w.sawResize, "pod-resized")
-		c.ClassIf(w.sawUnreserve, "unreserve")
-		c.ClassIf(w.sawParentPods, "pods-in-parent-quota")
-		c.ClassIf(w.sawFallback, "default-fallback")
-		c.ClassIf(w.sawDirtyDelete, "quota-deleted-with-pods-inside")
-		c.ClassIf(w.sawRootDiff, "root-group-differs(not asserted)")
-		c.ClassIf(flags.Orphans, "mode:orphans")
-		c.ClassIf(!flags.Orphans, "mode:strict-routing")
-		c.ClassIf(flags.NoReparentOver, "mode:exclude-over-max-move")
-		c.ClassIf(flags.IgnoreTerm, "mode:ignore-terminating")
-		c.ClassIf(len(w.hist) >= 20, "history>=20")
-		if w.sawReparentLoad || w.sawDeleteLoad || w.sawOverMax {
-			c.NonTrivial(w.hist)
-		}
-		if c.WantSample() {
-			c.Sample(map[string]any{"flags": flags.String(), "history": w.hist})
-		}
-	})
+func TestVerifC01Concurrent(t *testing.T) {
+	c01Quiet()
+	rec := vk.New(t, "C01", "coreConcurrent")
+	rapid.Check(t, func(t *rapid.T) { c01RunConcurrent(t, rec, c01NewCoreDriver) })
 }
